@@ -306,7 +306,7 @@ def gen_lease(rng, knobs=None):
     for _ in range(rng.randint(4, 16)):
         r = rng.random()
         if r < 0.3:
-            prog.append(['lease', rng.choice([0, 1, 1, 2, 3, 5]), rng.choice([0, 50, 500, 1000, 1500, 2500, 3000])])
+            prog.append(['lease', rng.choice([0, 1, 1, 2, 3, 5]), rng.choice([0, 50, 500, 1000, 1500, 2500, 3000, 86400000, 90061001, 2147483647])])
             prog.append(['pump'] if rng.random() < 0.8 else ['settle'])
         elif r < 0.75:
             kind = rng.choice(['rr', 'rr', 'fnf', 'stream', 'channel'])
@@ -384,7 +384,7 @@ def gen_keepalive2(rng, knobs=None):
 def gen_setup_client(rng, knobs=None):
     """client configurations (periods incl. sub-second parts, MIME types, lease flag, setup payload) x transports/providers
     whose connect() does or does not suspend x requests issued while connecting"""
-    ms = [1, 50, 250, 500, 999, 1000, 1500, 2500, 60000, 90500, 600000, 3600000]
+    ms = [1, 50, 250, 500, 999, 1000, 1500, 2500, 60000, 90500, 600000, 3600000, 86400000, 86401000, 172802500, 605400001, 2147483647]
     opts = {'mode': rng.choice(['tcp', 'msg']), 'keepalive_ms': rng.choice(ms), 'lifetime_ms': rng.choice(ms),
             'connect_suspends': rng.choice([0, 0, 1, 2, 3]), 'provider_suspends': rng.choice([0, 0, 1, 2]),
             'frag': rng.choice([None, 64])}
@@ -488,5 +488,61 @@ def gen_reconnect(rng, knobs=None):
     prog.append(['probe', 'c', spec(rng, big=False), spec(rng, big=False)])
     prog.append(['pump'])
     prog.append(['advance', period + 1])
+    prog.append(['finish'])
+    return opts, prog
+
+
+def gen_adapters(rng, knobs=None):
+    """the scenarios of C01/C06/C07/C09 driven through the Rx (v3) / ReactiveX (v4) client and handler adapters: element counts 0, 1,
+    many; request limits 1..max; error positions; disposal moments; plain observables and back-pressure factories; both versions"""
+    k = dict(knobs or {})
+    version = k.get('version') or rng.choice(['reactivex', 'rx'])
+    opts = {'mode': k.get('mode') or rng.choice(['tcp', 'tcp', 'msg']), 'frag': rng.choice([None, None, 64]), 'adapters': version,
+            'read_buffer': rng.choice([1, 7, 1024])}
+    prog = [['start'], ['pump']]
+
+    def obs_policy(allow_error=True):
+        n = rng.choice([0, 1, 2, 3, 5, 8])
+        pol = {'src': rng.choice(['observable', 'observable', 'factory']), 'items': items(rng, n, big=rng.random() < 0.3)}
+        if allow_error and rng.random() < 0.2:
+            pol['error_at'] = rng.randint(0, n)
+        return pol
+
+    n_inter = rng.randint(1, 3)
+    kinds = []
+    for _ in range(n_inter):
+        kind = rng.choice(['rr', 'stream', 'stream', 'channel', 'channel', 'fnf', 'push'])
+        kinds.append(kind)
+        sp = spec(rng, big=rng.random() < 0.3)
+        limit = rng.choice([1, 1, 2, 3, 5, None])
+        if kind == 'rr':
+            prog.append(['rr', 'c', sp, {'mode': rng.choice(['immediate', 'immediate', 'empty', 'error']), 'resp': spec(rng, big=False)}])
+        elif kind == 'fnf':
+            prog.append(['fnf', 'c', sp])
+        elif kind == 'push':
+            prog.append(['push', 'c', 9])
+        elif kind == 'stream':
+            prog.append(['stream', 'c', sp, limit, obs_policy(), True])
+        else:
+            pol = obs_policy()
+            pol['pub'] = rng.random() < 0.85
+            pol['sub'] = rng.random() < 0.9
+            pol['limit'] = rng.choice([1, 2, 3, 2147483647])
+            has_pub = rng.random() < 0.8
+            prog.append(['channel', 'c', sp, limit, pol, has_pub, obs_policy() if has_pub else None, True])
+        for _ in range(rng.randint(0, 4)):
+            r = rng.random()
+            if r < 0.5:
+                prog.append(['pump'] if rng.random() < 0.7 else ['pump', rng.choice([1, 5, 30])])
+            elif r < 0.8:
+                prog.append(['deliver', rng.choice(['c', 's']), rng.choice([1, 9, 40, None]) if opts['mode'] == 'tcp' else rng.choice([1, 2, None])])
+            elif r < 0.9 and kinds and kinds[-1] in ('stream', 'channel', 'rr'):
+                prog.append(['dispose', len(kinds) - 1])
+            else:
+                prog.append(['advance', rng.choice([1, 5])])
+    for _ in range(rng.randint(0, 3)):
+        if rng.random() < k.get('p_dispose', 0.25):
+            prog.append(['dispose', rng.randrange(len(kinds))])
+        prog.append(['pump'])
     prog.append(['finish'])
     return opts, prog
